@@ -40,7 +40,7 @@ static void prstore(sexp b) {
 
 static const char *errkind(sexp e) {
   sexp m = sexp_exception_message(e);
-  if (sexp_stringp(m) && strstr(sexp_string_data(m), "invalid utf8")) return "utf8";
+  if (sexp_stringp(m) && (strstr(sexp_string_data(m), "invalid utf8") || strstr(sexp_string_data(m), "truncated utf8"))) return "utf8";
   return "range";
 }
 
@@ -63,10 +63,12 @@ int main(int argc, char **argv) {
         unsigned char e[8]; memset(e, 0, sizeof e);
         sexp_utf8_encode_char(e, n, c);
         for (int i = 0; i < n; i++) printf("%s%x", i ? "," : "", e[i]);
-      } else if (!strcmp(f[1], "dec") && nf == 6) {
+      } else if (!strcmp(f[1], "dec") && (nf == 6 || nf == 7)) {
+        /* leaf dec b0 b1 b2 b3 [size]: the string is the first size (default 4) of the four bytes */
         unsigned char e[8]; memset(e, 0, sizeof e);
+        long sz = nf == 7 ? parse_z(f[6]) : 4;
         for (int i = 0; i < 4; i++) e[i] = (unsigned char) parse_z(f[2 + i]);
-        b = mkbytes(e, 5); s = mkstr(b, 0, 4, 0);
+        b = mkbytes(e, 5); s = mkstr(b, 0, sz, 0);
         r = sexp_string_utf8_ref(ctx, s, sexp_make_string_cursor(0));
         if (sexp_exceptionp(r)) printf("ERR utf8"); else printf("OK %x", (unsigned) sexp_unbox_character(r));
       } else printf("ERR unknown leaf");
